@@ -249,6 +249,92 @@ def tables(desc, ctx, m, phase, renumber=True):
                 ctx.fail('boundary_edges', f'raises after renumbering {e!r}', **sig)
 
 
+# ------------------------------------------------------------------------------ large meshes
+def large_cases(tier):
+    out = [dict(kind='delaunay_tet', npts=300, seed=1), dict(kind='delaunay_tet', npts=450, seed=2),
+           dict(kind='refined', cls='MeshTri', levels=9), dict(kind='refined', cls='MeshQuad', levels=8)]
+    if tier == 'thorough':
+        out += [dict(kind='delaunay_tet', npts=1000, seed=3), dict(kind='refined', cls='MeshQuad', levels=9),
+                dict(kind='tensor_tet', n=42), dict(kind='tensor_hex', n=42)]
+    return out
+
+
+def _keys(rows, nv):
+    """one int64 key per column of a (k, n) vertex table, rows sorted first"""
+    s = np.sort(np.asarray(rows, dtype=np.int64), axis=0)
+    key = np.zeros(s.shape[1], dtype=np.int64)
+    for r in range(s.shape[0]):
+        key = key * np.int64(nv + 1) + s[r]
+    return key
+
+
+def body_large(c, ctx):
+    """sizes the random sub-check never reaches: index arithmetic (more than 2^16 vertices: products of vertex numbers exceed
+    int32) and library shortcuts that depend on array sizes.  Unstructured tetrahedral meshes of a few hundred points go through
+    the brute-force oracle; the very large structured ones through a vectorised int64 re-computation of the same tables."""
+    import skfem
+    ctx.nt(True)
+    ctx.cls('large:' + c['kind'])
+    if c['kind'] == 'delaunay_tet':
+        from scipy.spatial import Delaunay
+        P = np.random.RandomState(c['seed']).rand(c['npts'], 3)        # fixed pseudo-random points: part of the case, not of the search
+        T = Delaunay(P).simplices
+        vol = np.abs(np.linalg.det(np.moveaxis(P[T[:, 1:]] - P[T[:, :1]], 0, 0)))
+        T = T[vol > 1e-9]
+        m = skfem.MeshTet(P.T.copy(), T.T.copy().astype(np.int64))
+        tables(dict(cls='MeshTet1', feat=['tet', 'delaunay', 'large']), ctx, m, 'large', renumber=False)
+        return
+    if c['kind'] == 'refined':
+        m = getattr(skfem, c['cls'])().refined(c['levels'])
+    elif c['kind'] == 'tensor_tet':
+        m = skfem.MeshTet.init_tensor(*[np.linspace(0, 1, c['n'])] * 3)
+    else:
+        m = skfem.MeshHex.init_tensor(*[np.linspace(0, 1, c['n'])] * 3)
+    sig = dict(mesh=type(m).__name__, phase='large')
+    nv, nc = m.p.shape[1], m.t.shape[1]
+    rd = m.elem.refdom
+    t = np.asarray(m.t[:rd.nnodes], dtype=np.int64)
+
+    def entity_check(name, ents, table, local, inverse=None):
+        ents = np.asarray(ents)
+        ek = _keys(ents, nv)
+        if len(np.unique(ek)) != len(ek):
+            ctx.fail(name + '_unique', f'{len(ek) - len(np.unique(ek))} entities listed more than once', **sig)
+            return None
+        want = np.unique(np.concatenate([_keys(t[list(lv)], nv) for lv in local]))
+        if len(want) != len(ek) or not np.array_equal(np.sort(ek), want):
+            ctx.fail(name + '_set', f'{len(ek)} listed, {len(want)} spanned by the cells', **sig)
+            return None
+        for i, lv in enumerate(local):
+            if not np.array_equal(ek[np.asarray(table[i])], _keys(t[list(lv)], nv)):
+                bad = int((ek[np.asarray(table[i])] != _keys(t[list(lv)], nv)).sum())
+                ctx.fail(name + '_slot', f'local slot {i}: {bad} cells name another entity', **sig)
+                return None
+        return ek
+    fk = entity_check('facets', m.facets, m.t2f, [tuple(f) for f in rd.facets])
+    if fk is None:
+        return
+    if m.dim() == 3:
+        if entity_check('edges', m.edges, m.t2e, [tuple(e_) for e_ in rd.edges]) is None:
+            return
+    # facet -> cells
+    t2f = np.asarray(m.t2f)
+    cnt = np.bincount(t2f.ravel(), minlength=len(fk))
+    f2t = np.asarray(m.f2t)
+    if f2t.shape != (2, len(fk)) or cnt.min() < 1 or cnt.max() > 2:
+        ctx.fail('f2t_shape', f'{f2t.shape}; facets with {cnt.min()}..{cnt.max()} cells', **sig)
+        return
+    cells = np.broadcast_to(np.arange(nc), t2f.shape)
+    member = (f2t[0][t2f] == cells) | (f2t[1][t2f] == cells)
+    if not member.all() or not np.array_equal((f2t[1] != -1).astype(int) + 1, cnt) or (f2t[0] == f2t[1]).any():
+        ctx.fail('f2t', f'{int((~member).sum())} (cell, slot) pairs missing from the facet-to-cell table', **sig)
+    if not np.array_equal(np.sort(m.boundary_facets()), np.nonzero(cnt == 1)[0]):
+        ctx.fail('boundary_facets', '', **sig)
+    bn = np.unique(np.asarray(m.facets)[:, cnt == 1])
+    if not np.array_equal(np.sort(m.boundary_nodes()), bn):
+        ctx.fail('boundary_nodes', '', **sig)
+
+
 PROP = Prop(
     'C11', 'derived mesh connectivity coherent with the cell list',
     rule=('Hypothesis strategy over mesh descriptors of all ten mesh classes (Delaunay / tensor / simplex-split '
@@ -258,6 +344,7 @@ PROP = Prop(
     assumptions=['generated meshes are conforming and manifold by construction (facets with > 2 cells never generated)',
                  'reference-cell conventions (local facet/edge vertex lists) are read from skfem.refdom',
                  'second-order meshes: the vertex partition is judged on vertex indices only'],
-    subs=[Sub('tables', body, strategy=strategy, quick=1200, thorough=30000)],
+    subs=[Sub('tables', body, strategy=strategy, quick=1200, thorough=30000),
+          Sub('large', body_large, cases=large_cases, max_shards=8)],
     design_ref='DESIGN.md section 6, C11')
 PROP.rule += ('. Added in round 2: the same oracle on every mesh DERIVED from the generated one after its tables were cached: from_mesh to the same and the sibling (first/second order) class and back, oriented() and from_mesh of it, second-order simplices re-built from the external layout with and without sort_t, translated, tagged, restricted.')
